@@ -7,7 +7,7 @@ Extraction Language OCaml.
 Set Extraction AccessOpaque.
 Extraction "model.ml"
   Adler.hash Adler.state_of Adler.digest Adler.roll Adler.roll_run Adler.windows
-  Delta.apply Delta.copy_in_range Delta.cks_id Delta.gen_mem_id Delta.gen_stream_id Delta.gen_stream_impl Delta.list_eqb
+  Delta.block_size_for Delta.apply Delta.copy_in_range Delta.cks_id Delta.gen_mem_id Delta.gen_stream_id Delta.gen_stream_impl Delta.list_eqb
   Filter.should_include Filter.build_rules Filter.engine_select Filter.listing_ok
   Bisync.classify Bisync.resolve Bisync.bisync Bisync.run_step Bisync.drop_row Bisync.write_at Bisync.empty_world Bisync.actions_of Bisync.converged
   Engine.run Engine.exit_status EngineFaults.run_f
